@@ -10,7 +10,7 @@ TRUST = "TLC 1.8 + CommunityModules (Json, IOUtils); g++ 12 and its sanitizer ru
 
 CHECKS = {
     "C05": dict(level="model_checking", ref="5 (C05), 4.1",
-                technique="TLC model checking of TheoVM.tla (complete debugger state graph, ghost reference machine) + S->I replay of all bounded histories + I->S trace validation (TheoVMTrace.tla)",
+                technique="TLC model checking of TheoVM.tla (complete debugger state graph, ghost reference machine) + S->I replay of all bounded histories + I->S trace validation (TheoVMTrace.tla: random histories with copies and moves of the machine, exhaustive walks; TheoCliTrace.tla: sessions of the command line debugger)",
                 text="Transparent and BrkSync are TLC invariants on the complete state graph (all histories of any length) of the real compiler's bytecode for the corpus programs; every API history of length 3 (thorough 4) is replayed into the real VM with ip, break opcodes, data and variable views compared after every call; seeded random histories of the real VM are validated event by event against the specification."),
     "C06": dict(level="model_checking", ref="5 (C06), 4.1",
                 technique="TLC model checking of TheoVM.tla (StopExact over the site table, enable/disable algebra) + S->I replay of all bounded histories + I->S trace validation",
@@ -19,7 +19,7 @@ CHECKS = {
                 technique="TLC model checking of TheoVM.tla (action properties ResetIsInit, DoneAbsorbing) + S->I replay + I->S trace validation with reset-heavy histories",
                 text="ResetIsInit (reset's post-state equals the initial state, including every break opcode, and the ghost reference machine restarts) and DoneAbsorbing are TLC action properties on the complete state graph; S->I replays every bounded history with all observable fields compared (so behaviour after a reset is compared with the specification's fresh machine); reset-heavy random histories of the real VM are validated with all fields bound."),
     "C19": dict(level="model_checking", ref="5 (C19), 4.1",
-                technique="TLC model checking of TheoVM.tla (FramesExact) + S->I replay + I->S trace validation with frame geometry bound through the THEO_VERIF hooks",
+                technique="inductive invariant of TheoFrames.tla discharged by Apalache (FramesExact, unbounded frame sizes) + TLC model checking of TheoVM.tla (FramesExact, refinement FramesRefine of TheoFrames) + S->I replay + I->S trace validation with frame geometry bound through the THEO_VERIF hooks",
                 text="FramesExact (data = exactly the live frames, contiguous, in call order) is a TLC invariant on the complete state graph, i.e. at every instruction boundary of every history; the real VM's word count and every activation's base/size are compared after every call in S->I and bound in I->S traces."),
     "C01": dict(level="translation_validation", ref="5 (C01), 4.3",
                 technique="trace validation of real compile-and-run executions against the TLA+ reference semantics TheoSem.tla (TLC, TheoSemTrace.tla), seeded program generator",
@@ -43,10 +43,10 @@ CHECKS = {
                 technique="TLC enumeration with TheoLex.tla (maximal-munch tokeniser over the frozen vocabulary) and TheoInclude.tla, S->I replay into two scanner builds (committed lex.yy.c and one regenerated from lexer.l)",
                 text="TheoLex enumerates every string of <= 3 characters over 41 significant characters (thorough: also <= 4 over 22) and all pairs of ~350 fragments (every keyword spelling, its near misses, multi-word tokens with one/two blanks or a newline, sigils, quoted names, comments) and computes the expected kinds, texts and end lines; TheoInclude enumerates well-formed include layouts over 3 files. Every case is scanned by the build using the shipped lex.yy.c and by the build whose scanner is regenerated from lexer.l; tokens, file labels, lines and the single trailing EOF must equal the specification on both."),
     "C15": dict(level="model_checking", ref="5 (C15), 4.5",
-                technique="TLC model checking of TheoInclude.tla (termination under weak fairness, DepthOK, ReqsOK) with exhaustive enumeration of include graphs, S->I replay into Theo::scan / Theo::compile",
+                technique="TLC model checking of TheoInclude.tla (termination under weak fairness, DepthOK, ReqsOK, bound on the token stream) with exhaustive enumeration of include graphs under four namings, S->I replay into Theo::scan / Theo::compile and into a harness variant built with a 5-token stream bound",
                 text="TheoInclude mirrors the scanner's include stack, one action per branch; TLC checks termination, stack-depth and request invariants and enumerates all ~500k configurations of 3 files with up to 2 items each (token, include of each file or of an absent name, include without a name, bare include at end of file) times every choice of main including an absent one, plus random graphs over 4-7 files. Each is rendered and scanned for real: tokens with files and lines, errors by type, file and line and the request set must agree; Theo::compile's file_requests are compared on a sample."),
     "C04": dict(level="model_checking", ref="5 (C04), 4.8",
-                technique="TLC enumeration of the TheoParse.tla push-down automaton (LL(1) grammar + static rules + sugar): viable prefixes, sentences, refused extensions, chunk-level skeletons, decider on mutated programs; S->I verdict equality in both directions",
+                technique="TLC enumeration of the TheoParse.tla push-down automaton (LL(1) grammar + static rules + sugar): viable prefixes, sentences, refused extensions, every source one token edit away from a sentence, chunk-level skeletons, decider on mutated programs; S->I verdict equality in both directions",
                 text="TheoParse is the accept/reject oracle. TLC's BFS over its Feed action yields every viable prefix of <= 8 (thorough 10) tokens, every sentence and every refused one-token extension, the same after a prelude that defines a program (so that complete calls and their near misses are in reach), chunk-level skeletons (definitions x calls x arities x labels x literals incl. out-of-range ones) and reference skeletons; 1-4 token mutations of generated programs are decided by the automaton in decider mode. Every case is compiled by the real compiler and the verdict must be equal: sentences obeying the static rules must compile, everything else must be marked incorrect with at least one error."),
     "C02": dict(level="exploration", ref="5 (C02), 4.9",
                 technique="grammar-automaton-generated and mutated inputs compiled on the ASan/UBSan build; result shapes validated by TLC against TheoIface.tla (ResultOK); abort/timeout events have no explaining action",
